@@ -201,6 +201,12 @@ func verifSpecCL(lowered string) primitive.ConsistencyLevel {
 //@ type proxy.client
 //@   ghost $sent int, $executed int, $registered bool
 //@   immutable: ctx, proxy, conn, preparedSystemQuery
+//@   strict: codec, compression
+
+// C13: the codec tables are initialised once (package initialisation) and never written; a STARTUP
+// message's option map is not written by the proxy. Both map types are framed strictly.
+//@ owned-map map[string]frame.RawCodec
+//@ owned-map map[string]string
 
 // The configuration is fixed when the proxy is constructed.
 //@ type proxy.Config
@@ -584,6 +590,17 @@ func verifSpecCL(lowered string) primitive.ConsistencyLevel {
 //@ ghostvar $rxBodyTried bool
 //@ ghostvar $rxBodyOK bool
 //@ ghostvar $rxMsg message.Message
+//@ ghostvar $rxCodec frame.RawCodec
+//@ ghostvar $txCodec frame.RawCodec
+//@ macro rxStartup() = $rxBodyTried && $rxBodyOK && typeis($rxMsg, *message.Startup) && as($rxMsg, *message.Startup) != nil
+//@ macro rxWanted() = mapGet(as($rxMsg, *message.Startup).Options, "COMPRESSION")
+
+// C13 (both directions): a reply is encoded with the codec the client connection has when the frame is written.
+//@ func proxy.client.send$1 [C13]
+//@   requires c != nil && c.codec != nil && hdr != nil
+//@   after frame.RawCodec.EncodeFrame#1 set $txCodec = recv
+//@   ensures encoded-with-connection-codec: $txCodec == c.codec
+//@   modifies $txCodec
 
 // registerForEvents: the client becomes a delivery target of schema events ($registered is the
 // abstract view of membership in Proxy.eventClients).
@@ -632,8 +649,14 @@ func verifSpecCL(lowered string) primitive.ConsistencyLevel {
 //@   ensures handshake-replies: $rxBodyTried && $rxBodyOK && typeis($rxMsg, *message.Options) ==> typeis($lastMsg, *message.Supported)
 //@   ensures register-reply: $rxBodyTried && $rxBodyOK && typeis($rxMsg, *message.Register) ==> typeis($lastMsg, *message.Ready)
 //@   ensures register-membership: $rxBodyTried && $rxBodyOK && typeis($rxMsg, *message.Register) && as($rxMsg, *message.Register) != nil ==> c.$registered == (old(c.$registered) || exists(k, 0, len(as($rxMsg, *message.Register).EventTypes), as($rxMsg, *message.Register).EventTypes[k] == primitive.EventTypeSchemaChange))
+//@   before frame.RawCodec.DecodeRawFrame#1 set $rxCodec = recv
+//@   ensures decoded-with-connection-codec: $rxCodec == old(c.codec) [C13]
+//@   ensures startup-unsupported-compression: rxStartup() && mapHas(as($rxMsg, *message.Startup).Options, "COMPRESSION") && !mapHas(codecs.CustomRawCodecsWithCompression, strings.ToLower(rxWanted())) ==> typeis($lastMsg, *message.ProtocolError) && c.codec == old(c.codec) && c.compression == old(c.compression) [C13]
+//@   ensures startup-supported-compression: rxStartup() && mapHas(as($rxMsg, *message.Startup).Options, "COMPRESSION") && mapHas(codecs.CustomRawCodecsWithCompression, strings.ToLower(rxWanted())) ==> typeis($lastMsg, *message.Ready) && c.codec == mapGet(codecs.CustomRawCodecsWithCompression, strings.ToLower(rxWanted())) && c.compression == rxWanted() [C13]
+//@   ensures startup-without-compression: rxStartup() && !mapHas(as($rxMsg, *message.Startup).Options, "COMPRESSION") ==> typeis($lastMsg, *message.Ready) && c.codec == old(c.codec) && c.compression == old(c.compression) [C13]
+//@   ensures only-startup-switches: !rxStartup() ==> c.codec == old(c.codec) && c.compression == old(c.compression) [C13]
 //@   ensures only-register-registers: !($rxBodyTried && $rxBodyOK && typeis($rxMsg, *message.Register)) ==> c.$registered == old(c.$registered)
-//@   modifies *, c.preparedSystemQuery[*], c.$registered, c.$sent, c.$executed, $reqStarted, $sends, $convertedBody, $lastReq, $lastMsg, $lastStream, $lastVersion, $lastClient, $qhHandled, $selReached, $selDot, $selErr, $selQual, $selTable, $exId, $exLocal, $useTried, $useOK, $useKs, $useVersion, $useCompression, $rxDecoded, $rxVersion, $rxStream, $rxBodyTried, $rxBodyOK, $rxMsg, any(proxycore.ClientConn).inflight, any(proxycore.pendingRequests).$has, any(proxycore.pendingRequests).$tag, any(proxycore.pendingRequests).$val
+//@   modifies *, c.codec, c.compression, $rxCodec, c.preparedSystemQuery[*], c.$registered, c.$sent, c.$executed, $reqStarted, $sends, $convertedBody, $lastReq, $lastMsg, $lastStream, $lastVersion, $lastClient, $qhHandled, $selReached, $selDot, $selErr, $selQual, $selTable, $exId, $exLocal, $useTried, $useOK, $useKs, $useVersion, $useCompression, $rxDecoded, $rxVersion, $rxStream, $rxBodyTried, $rxBodyOK, $rxMsg, any(proxycore.ClientConn).inflight, any(proxycore.pendingRequests).$has, any(proxycore.pendingRequests).$tag, any(proxycore.pendingRequests).$val
 
 // ---------------------------------------------------------------------------------------------
 // C01 / C04 / C05: the request object as a monitor
